@@ -608,7 +608,7 @@ func replayMain(prop, path string) int {
 		if orc == "" {
 			orc = prop
 		}
-		job = Job{Kind: "hist", Args: mustJSON(map[string]any{"cfg": rec.Replay.Cfg, "supis": rec.Replay.Supis, "ops": rec.Replay.Ops, "oracle": orc, "all": os.Getenv("VREPLAY_ALL") != ""})}
+		job = Job{Kind: "hist", Args: mustJSON(map[string]any{"cfg": rec.Replay.Cfg, "supis": rec.Replay.Supis, "ops": rec.Replay.Ops, "oracle": orc, "gor": true, "all": os.Getenv("VREPLAY_ALL") != ""})}
 	case rec.Replay.Job != nil:
 		kind := rec.Replay.Kind
 		if kind == "" {
